@@ -24,7 +24,7 @@ func init() {
 		NotDecided:  []string{"all segmentations x buffer sizes", "timing: how long a read blocks"},
 		Rules: []core.Rule{
 			{ID: "C07-R1", Title: "the read-ahead buffer over the socket outlives the call", Decides: "no byte lost when frames are coalesced into one segment", Floor: 2, Run: func(c *core.Ctx) { c07r1(c); socketIsTheAcceptedOne(c) }},
-			{ID: "C07-R2", Title: "the remainder buffer is kept only while it has unread data", Decides: "no end-of-stream while the peer is connected", Floor: 2, Run: func(c *core.Ctx) { c07r2(c); passThrough(c, "C07"); returnsUndecorated(c, "C07") }},
+			{ID: "C07-R2", Title: "the remainder buffer is kept only while it has unread data; the drained test recognises the reader Decrypt returns", Decides: "no end-of-stream while the peer is connected", Floor: 2, Run: func(c *core.Ctx) { c07r2(c); drainedRecognisesDecrypt(c); passThrough(c, "C07"); returnsUndecorated(c, "C07") }},
 			{ID: "C07-R3", Title: "no plaintext dropped on a stream-read error", Decides: "no byte lost across read time-outs", Floor: 1, Run: c07r3},
 			{ID: "C07-R4", Title: "the remainder is fetched only when none is pending", Decides: "no byte lost or reordered between messages", Floor: 1, Run: c07r4},
 			{ID: "C07-R5", Title: "frame pieces are read completely however the network splits them; a frame is consumed only when it is complete, and handed out at once", Decides: "frames split at every offset are reassembled", Floor: 1, Run: func(c *core.Ctx) { c07r5(c); frameAtATime(c) }},
